@@ -40,6 +40,8 @@ def writes_to(h, upto, inflight, cell):
     idxs = list(range(upto)) + ([inflight] if inflight is not None and inflight >= upto else [])
     for i in idxs:
         op = h["ops"][i]
+        if op["k"] == "D":
+            out = []  # writes before an acknowledged drop do not count
         if op["k"] != "W":
             continue
         for r in op["rows"]:
@@ -59,6 +61,8 @@ def lww_py(h, upto, inflight):
     idxs = list(range(upto)) + ([inflight] if inflight is not None and inflight >= upto else [])
     for i in idxs:
         op = h["ops"][i]
+        if op["k"] == "D":
+            m = {}
         if op["k"] == "W":
             for r in op["rows"]:
                 for fv in r["f"]:
@@ -133,11 +137,12 @@ def main(ck):
     binp = ck.go_build("./cmd/c01", "c01")
     if not binp:
         return
-    n = 10 if ck.tier == "quick" else 150
+    n = 9 if ck.tier == "quick" else 150
     if ck.replay:
         rp = json.load(open(ck.replay))
         hf = os.path.join(ck.work, "replay_history.json")
-        json.dump({"case": rp["case"], "nwal": rp["nwal"], "nser": rp["nser"], "pre": rp.get("pre", 0), "ops": rp["ops"]}, open(hf, "w"))
+        json.dump({"case": rp["case"], "nwal": rp["nwal"], "nser": rp["nser"], "pre": rp.get("pre", 0), "auto": rp.get("auto", False),
+                   "async": rp.get("async", False), "ops": rp["ops"]}, open(hf, "w"))
         rc, out = ck.run([binp, "1", hf], timeout=3000)
     else:
         rc, out = ck.run([binp, str(n)], timeout=6000)
@@ -171,7 +176,8 @@ def main(ck):
                 if im.get("dump") is None:
                     im["dump"] = []
                 imgs.append(image_coq(im, parent))
-            cases.append("mkcc %s\n %s" % (coq_list([batch_coq(o) for o in h["ops"]]), coq_list(imgs)))
+            drops = coq_list(["%d%%nat" % i for i, o in enumerate(h["ops"]) if o["k"] == "D"])
+            cases.append("mkcc %s %s\n %s" % (coq_list([batch_coq(o) for o in h["ops"]]), drops, coq_list(imgs)))
         txt = ("From Coq Require Import NArith ZArith List Bool. From OG Require Import C01.Model C01.Corr.\n"
                "Import ListNotations.\nDefinition cases : list ccase := [\n%s\n].\n"
                "Definition M := Eval vm_compute in all_codes cases.\nPrint M.\n") % ";\n".join(cases)
@@ -229,7 +235,7 @@ def main(ck):
             else:
                 nviol += 1
                 if nviol <= 3:
-                    ck.violation({"kind": "direct-oracle", "what": what, "case": h["case"], "nwal": h["nwal"], "nser": h["nser"], "pre": h.get("pre", 0), "ops": h["ops"],
+                    ck.violation({"kind": "direct-oracle", "what": what, "case": h["case"], "nwal": h["nwal"], "nser": h["nser"], "pre": h.get("pre", 0), "auto": h.get("auto", False), "async": h.get("async", False), "ops": h["ops"],
                                   "crash": {"at": im["at"], "during_op": im["op"], "acked_ops": im["acked"], "inflight_op": im["inflight"],
                                             "torn_bytes": im["torn"], "recovery_mutations_before_second_crash": im["sub"],
                                             "live_wal_parts": im["parts"], "pending_index_txn": im.get("txn")},
